@@ -24,13 +24,15 @@ func parseDERData(b []byte) Info {
 		return info
 	} else if info, err = parsePKIXPublicKey(b); err == nil {
 		return info
-	} else if info, err = parsePKCS1PublicKey(b); err == nil {
-		return info
 	} else if info, err = parseECPrivateKey(b); err == nil {
 		return info
 	} else if info, err = parsePKCS1PrivateKey(b); err == nil {
 		return info
 	} else if info, err = parseDSAPrivateKey(b); err == nil {
+		return info
+	} else if info, err = parsePKCS1PublicKey(b); err == nil {
+		// Last: asn1.Unmarshal ignores trailing elements, so {N, E} also accepts a
+		// PKCS#1 private key {version, n, e, ...} whose modulus fits in an int.
 		return info
 	} else {
 		return UnknownASN1Data
